@@ -133,7 +133,7 @@ fn wide_int(src: &mut Src, len: usize) -> Option<i32> {
 }
 
 fn random(src: &mut Src, st: &mut Stats, _env: &Env) -> CaseResult {
-    let len = src.below(41);
+    let len = if src.chance(40) { src.size(600) } else { src.below(41) };
     let a = wide_int(src, len);
     let b2 = wide_int(src, len);
     let c = wide_int(src, len);
